@@ -36,6 +36,7 @@ TslStatic(c) ==
     <<"CanonicalizeMeaning", \A i \in box : Addr(c.canon, i) = Addr(L, i)>>,
     <<"CanonicalizeIdempotent", c.canon2 = c.canon>>,
     <<"PrintParse", c.reparsed = L>>,
+    <<"AttributePrintParse", c.attr_reparsed = L>>,       \* through the IR attribute printer and parser (memref types in printed IR)
     <<"PrintParseCanon", c.canon_reparsed = c.canon>>,
     <<"FromStrides", c.fs.result = FromStrides(c.fs.strides, c.fs.tilebounds, c.fs.off)>>,
     <<"CommonContiguousBlock", LcbOK(c)>>
@@ -44,6 +45,7 @@ TslStatic(c) ==
 TslDynamic(c) ==
   First(<<
     <<"PrintParse", c.reparsed = c.L>>,
+    <<"AttributePrintParse", c.attr_reparsed = c.L>>,
     <<"CanonicalizeIdempotent", c.canon2 = c.canon>>,
     <<"PrintParseCanon", c.canon_reparsed = c.canon>>
   >>)
